@@ -95,6 +95,13 @@ def main():
         if b['build_ok'] and cases:
             mism, errs = core.run_coq_cases(prop, mod.COQ_IMPORTS, cases)
             cerrors.extend(errs)
+        elif b.get('partial') and cases:
+            # an obligation (e.g. a translated-text equivalence) no longer builds; the model itself may still be
+            # there: evaluate the cases anyway so that disagreements can point the search at a failing input
+            mism, errs = core.run_coq_cases(prop, mod.COQ_IMPORTS, cases)
+            if errs:
+                notes.append('correspondence not evaluated after the failed build: ' + errs[0][:300])
+                mism = []
     if cerrors:
         broken.append({'kind': 'correspondence', 'what': 'model could not be evaluated: ' + cerrors[0][:1500]})
     if mism:
